@@ -508,7 +508,7 @@ def rule_T3(ctx) -> None:
                     continue
                 a = e.data[2]
                 w = a[0]
-                inwhile = any(isinstance(l, tuple) and l and l[0] == "while" for l in e.loops)
+                inwhile = in_packed_loop(e.loops)
                 inner.add((w[1] if w[0] == "c" else show(w), inwhile, _payload_kind(a[3]) if len(a) > 3 else "?"))
         want = t in SPEC_PACKABLE
         if want:
@@ -534,10 +534,23 @@ def rule_T3(ctx) -> None:
         ctx.refuted("T3", "PACKED_TYPES", f"diff={sorted(pk ^ SPEC_PACKABLE)}", M_INIT, f"PACKED_TYPES differs from the packable scalar types by {sorted(pk ^ SPEC_PACKABLE)}")
 
 
+def in_packed_loop(loops) -> bool:
+    """inside the inner loop that walks the payload of one length-delimited occurrence"""
+    pv = A(N("$parsed"), "value")
+    return any(isinstance(l, tuple) and l and l[0] == "while" and contains(l[1], pv) for l in loops)
+
+
 def load_roles(it: Sym, depth: int):
     # for parsed in load_fields(stream)
     if it[0] == "call" and dotted(it[1]) in ("load_fields", "parse_fields"):
         return [N("$parsed")]
+    return None
+
+
+def load_alias_fn(s: Sym):
+    """parsed = next(<load_fields(...)>[, default]) in the while-loop form of the field loop"""
+    if s[0] == "call" and s[1] == N("next") and s[2] and s[2][0][0] == "call" and dotted(s[2][0][1]) in ("load_fields", "parse_fields"):
+        return N("$parsed")
     return None
 
 
@@ -565,7 +578,9 @@ def _load_paths(ctx, mod, t: Optional[str], w: Optional[int], **kw) -> List[Path
         b[A(N("$parsed"), "wire_type")] = w
     al = load_aliases()
     # proto_meta = self._betterproto
-    i = Interp(mod, bindings=b, aliases=al, loop_roles=load_roles, **kw)
+    assume = dict(kw.pop("assume", None) or {})
+    assume.setdefault(("op", "is", N("$parsed"), C(None)), False)   # a field was read (end of input is the other branch)
+    i = Interp(mod, bindings=b, aliases=al, alias_fn=load_alias_fn, loop_roles=load_roles, assume=assume, **kw)
     paths = i.run(load)
     ctx.count(len(paths))
     return paths
@@ -652,7 +667,7 @@ def rule_T5(ctx) -> None:
         for i, e in enumerate(p.events):
             if e.kind == "store" and e.data[0] == A(N("self"), "_serialized_on_wire") and e.data[1] == C(True) and idx_store is None:
                 idx_store = i
-            if e.kind == "loop" and idx_loop is None and e.data[0] == "call" and dotted(e.data[1]) in ("load_fields", "parse_fields"):
+            if e.kind == "loop" and idx_loop is None:
                 idx_loop = i
         if p.outcome == "raise" and idx_loop is None:
             continue
@@ -707,7 +722,7 @@ def rule_W2(ctx) -> None:
                     continue
                 if any(k[0] == "raises" and v for k, v in p.valuation.items()):
                     continue
-                packed_path = any(isinstance(l, tuple) and l and l[0] == "while" for e in p.events for l in e.loops)
+                packed_path = any(in_packed_loop(e.loops) for e in p.events)
                 vlist = packed_path
                 acts = set()
                 for e in p.events:
